@@ -75,6 +75,7 @@ theorem M_sound {β} : ∀ (r : Re), r.noEos = true → ∀ (s : Bytes) (k : Byt
     unfold M at h
     exact mrep_sound (M r) (L r) (fun s k x hx => ih hne s k x hx) hi lo s k x h
   | eos => intro hne; simp [noEos] at hne
+  | la r _ => intro hne; simp [noEos] at hne
 
 /-! ### completeness -/
 
@@ -138,6 +139,7 @@ theorem M_complete {β} : ∀ (r : Re), r.noEos = true → ∀ (u v : Bytes) (k 
     unfold M
     exact mrep_complete (M r) (L r) (fun a b k ha hk => ih hne a b k ha hk) hi lo u v k hu hk
   | eos => intro hne; simp [noEos] at hne
+  | la r _ => intro hne; simp [noEos] at hne
 
 /-! ### width -/
 
@@ -178,6 +180,7 @@ theorem L_maxWidth : ∀ (r : Re) (w : Bytes), L r w → w.length ≤ r.maxWidth
     intro w h
     exact Lrep_width (L r) r.maxWidth ih hi lo w h
   | eos => intro w h; simp only [L] at h; subst h; simp
+  | la r _ => intro w h; simp only [L] at h; subst h; simp
 
 /-! ### `matchAt` and `search` -/
 
@@ -304,5 +307,34 @@ theorem matchAt_anchored (r : Re) (hr : r.noEos = true) (t : Bytes) :
     have := M_complete r hr t [] (fun t' => M .eos t' (fun rest => some (t.length - rest.length))) h
       (by simp [M])
     simpa using this
+
+end Re
+
+namespace Re
+
+/-- **positive look-ahead** `(?=q)`: succeeds, consuming nothing, exactly when some prefix of the
+    rest of the input is in the language of `q` — the bytes it inspects are NOT part of the match,
+    which is why the width of an expression (`maxWidth`) says nothing about how far ahead of a
+    match the decision reaches. -/
+theorem M_la_iff {β} (q : Re) (hq : q.noEos = true) (s : Bytes) (k : Bytes → Option β) (x : β) :
+    M (.la q) s k = some x ↔ (∃ u v, s = u ++ v ∧ L q u) ∧ k s = some x := by
+  unfold M
+  constructor
+  · intro h
+    split at h
+    · rename_i y hy
+      obtain ⟨u, v, hs, hu, _⟩ := M_sound q hq s _ y hy
+      exact ⟨⟨u, v, hs, hu⟩, h⟩
+    · simp at h
+  · rintro ⟨⟨u, v, rfl, hu⟩, hk⟩
+    have := M_complete (β := PUnit) q hq u v (fun _ => some ⟨⟩) hu rfl
+    split
+    · exact hk
+    · rename_i hn
+      rw [hn] at this; simp at this
+
+/-- a look-ahead adds nothing to the reported width of a match -/
+theorem maxWidth_la (r q : Re) : (Re.seq r (.la q)).maxWidth = r.maxWidth := by
+  simp [maxWidth]
 
 end Re
